@@ -81,7 +81,7 @@ class World:
         p.once('connection', got.append)
 
         async def go():
-            await p.start_advertising(advertising_interval_min=1.0)
+            await p.start_advertising(advertising_interval_min=500.0, advertising_interval_max=500.0)
             kw = {}
             if own_address_type is not None:
                 kw['own_address_type'] = own_address_type
